@@ -270,10 +270,12 @@ TypeAtx ==
        LET ind == At(Pick(<<0>>, <<0, 2>>, <<0, 1, 2, 3>>), v)
            lv == At(Pick(<<2>>, <<1, 2, 3>>, <<1, 2, 3, 4, 5, 6>>), v + nblocks)
            closing == At(Pick(<<"">>, <<"", " ##">>, <<"", " #", " ###  ">>), v)
-           l1 == LineAt(v) IN
+           empty == (v + 3 * nblocks) % 5 = 4                      \* a heading without text: "##", "## ", "##  ##  ", "## #"
+           l1 == IF empty THEN << >> ELSE LineAt(v)
+           rest == IF empty THEN At(<<"", " ", "  ##  ", " #">>, v \div 2 + nblocks) ELSE " " \o LineSrc(l1) \o closing IN
        /\ IndOk(ind)
        /\ Leaf("atx", "atx", sep, Node("Heading", Parent, 0, lv, <<[atoms |-> l1, hard |-> FALSE]>>, ""),
-               <<Spaces(ind) \o SubSeq("######", 1, lv) \o " " \o LineSrc(l1) \o closing>>, Depth)
+               <<Spaces(ind) \o SubSeq("######", 1, lv) \o rest>>, Depth)
        /\ UNCHANGED tags
 
 TypeSetext ==
@@ -336,7 +338,8 @@ TypeTable ==
            aligns == At(<< <<"---", "---">>, <<":--", ":-:">>, <<"--:", "-">>, <<":---:", "---">> >>, v)
            w == WordAt(nblocks + 1)
            hdr == <<"h" \o w, "*em*">>
-           rows == IF v % 3 = 0 THEN << <<w, "two">> >> ELSE IF v % 3 = 1 THEN << <<w, "`co`">>, <<"short">> >> ELSE << <<"a " \o w, "b">>, <<"c", "d">> >>
+           esc == (v + 2 * nblocks) % 4 = 3                         \* escaped pipes inside cells (plain text and code span)
+           rows == IF esc THEN << <<"x \\| y", "`p \\| q`">> >> ELSE IF v % 3 = 0 THEN << <<w, "two">> >> ELSE IF v % 3 = 1 THEN << <<w, "`co`">>, <<"short">> >> ELSE << <<"a " \o w, "b">>, <<"c", "d">> >>
            Line(cells) == IF outer THEN "| " \o Join(cells, " | ") \o " |" ELSE Join(cells, " | ")
            DLine == IF outer THEN "|" \o Join(aligns, "|") \o "|" ELSE Join(aligns, " | ")
            lines == <<Line(hdr), DLine>> \o [i \in DOMAIN rows |-> IF Len(rows[i]) = 1 /\ ~outer THEN rows[i][1] \o " |" ELSE Line(rows[i])]
@@ -503,8 +506,9 @@ Kids(n) == LET S == {i \in DOMAIN nodes : nodes[i].p = n} IN
 CodeHtml(x) == "<pre><code" \o (IF x.info = "" THEN "" ELSE " class=\"language-" \o x.info \o "\"") \o ">"
                \o Join(x.body, "\n") \o (IF x.body = << >> THEN "" ELSE "\n") \o "</code></pre>"
 
-(* cell text: words, *em* and `co` only *)
-CellHtml(c) == IF c = "*em*" THEN "<em>em</em>" ELSE IF c = "`co`" THEN "<code>co</code>" ELSE c
+(* cell text: words, *em*, `co`, and the two cells with an escaped pipe (the backslash is dropped, also inside a code span) *)
+CellHtml(c) == IF c = "*em*" THEN "<em>em</em>" ELSE IF c = "`co`" THEN "<code>co</code>"
+               ELSE IF c = "x \\| y" THEN "x | y" ELSE IF c = "`p \\| q`" THEN "<code>p | q</code>" ELSE c
 AlignOf(a) == IF SubSeq(a, 1, 1) = ":" /\ SubSeq(a, Len(a), Len(a)) = ":" THEN "center"
               ELSE IF SubSeq(a, Len(a), Len(a)) = ":" THEN "right" ELSE "left"      \* the renderer writes align="left" when none is given
 RowHtml(cells, aligns, tag) ==
